@@ -400,6 +400,30 @@ def marks_inputs(ck):
     return out
 
 
+def mapped_spellings(smi, rng, k):
+    """spellings of one molecule with atom-map numbers ([C@H:7]) drawn at random (NOT increasing in writing order), written by
+    RDKit (independent of chython's writer): rooted at a stereo atom (first atom of the string, implicit H if it has one) and in
+    random atom orders.  chython takes the map number as atom number, so positions in the string and atom numbers differ."""
+    from rdkit import Chem
+    rd = Chem.MolFromSmiles(smi)
+    if rd is None or rd.GetNumAtoms() < 2:
+        return []
+    n = rd.GetNumAtoms()
+    cents = [a.GetIdx() for a in rd.GetAtoms() if a.GetChiralTag() != Chem.ChiralType.CHI_UNSPECIFIED]
+    out = []
+    for j in range(k):
+        for a, x in zip(rd.GetAtoms(), rng.sample(range(1, 2 * n + 2), n)):
+            a.SetAtomMapNum(x)
+        try:
+            if cents and j % 2 == 0:
+                out.append(Chem.MolToSmiles(rd, canonical=False, rootedAtAtom=rng.choice(cents)))
+            else:
+                out.extend(Chem.MolToRandomSmilesVect(rd, 1, randomSeed=rng.randrange(1, 1 << 30)))
+        except Exception:
+            continue
+    return out
+
+
 MARKS_EXTRA = """
 Definition ish (l : list Z) (x : Z) : bool := zmem x l.
 Definition wth (hs order adj : list Z) (s hasH first : bool) (r : pyres bool) : bool :=
@@ -432,12 +456,20 @@ def corr_smiles_marks(ck):
         meta.append(info)
         ck.case(key)
 
+    rngm = random.Random(f'{ck.seed}:marks-mapped')
     with Trace() as tr:
         for smi in marks_inputs(ck):
             try:
                 m = smiles(smi)
             except Exception:
                 continue
+            # atom-mapped spellings: atom numbers (= map numbers) in another order than the positions in the string
+            for sp in mapped_spellings(smi, rngm, 2):
+                try:
+                    smiles(sp)
+                    ck.count('marks: atom-mapped spellings read')
+                except Exception:
+                    pass
             texts = []
             for k in range(4):
                 try:
@@ -499,6 +531,8 @@ def corr_smiles_marks(ck):
                 continue
             hasH = bool(m._atoms[n].implicit_hydrogens)
             np_ = all(x > i for x in snap['order'][i])
+            if np_ != all(mp[x] > n for x in snap['order'][i]):
+                ck.count('marks: reader centre whose atom NUMBER order disagrees with its position order (mapped)')
             if n in m.stereogenic_tetrahedrons:
                 add(f'rth {hs_of(m)} {lst(m.stereogenic_tetrahedrons[n], zraw)} {lst(order.get(n, []), zraw)} {b(s)} {b(hasH)} {b(np_)} (Ok {b(actual)})',
                     ('read-th', str(m), n, order.get(n), s, hasH, np_, actual), ('rth', tuple(m.stereogenic_tetrahedrons[n]), tuple(order.get(n, [])), s, hasH, np_, actual))
@@ -703,6 +737,14 @@ def directed_fix_search(ck, metas):
         lost = [c for c, s in labels if c not in kept and c in chiral_now]
         again = after.copy()
         again.fix_stereo()
+        # a kept label must have been chiral when it was restored, i.e. given SOME subset of the other kept labels
+        others = lambda c: [x for x in kept.items() if x[0] != c]
+        bogus = [c for c in kept if c[0] != 'X' and len(kept) <= 6 and
+                 not any(c in chiral_given(base, dict(sub)) for r in range(len(kept)) for sub in itertools.combinations(others(c), r))]
+        if bogus:
+            ck.counterexample(f'fix-stereo-keeps-nonchiral:{smi}', 'fix_stereo keeps the label of a centre that is not chiral given any subset of the other labels it kept',
+                              {'smiles': smi, 'labels': repr(labels)}, repr(bogus), 'label dropped', 'chiral_* of the real code on a copy carrying only the other kept labels',
+                              replay_py=f"from chython import smiles; m=smiles({smi!r}); # set labels {labels!r} on the registered centres, then m.fix_stereo()")
         if lost:
             ck.counterexample(f'fix-stereo-drops-chiral:{smi}', 'fix_stereo dropped the label of a centre that is chiral given the labels it kept',
                               {'smiles': smi, 'labels': repr(labels)}, repr(lost), 'label restored', 'chiral_* of the real code after fix_stereo')
@@ -1497,6 +1539,8 @@ def search(ck, budget):
                                       replay_py=f"from chython import smiles; print(smiles({smi!r}) == smiles({mir!r}))")
     ck.extra['rdkit_agreements'] = n_ok
     search_stereogenic(ck, pool)
+    search_mapped(ck, pool[:60 if ck.tier == 'quick' else 600])
+    search_histories(ck, pool[:60 if ck.tier == 'quick' else 600])
     search_allenes(ck)
     search_printable(ck)
     search_closure_double_bond(ck)
@@ -1583,6 +1627,155 @@ def search_stereogenic(ck, pool):
             ck.counterexample(f'label-dropped:{smi}', 'the label of a stereogenic centre (kept by RDKit) is dropped on reading',
                               {'smiles': smi, 'family': family}, str(m), f'{kept_rd} label(s): {Chem.MolToSmiles(rd)}', 'RDKit',
                               replay_py=f"from chython import smiles; print(smiles({smi!r}))")
+
+
+def search_mapped(ck, pool):
+    """atom-map numbers must not change the meaning of '@' / '@@' / '/' / '\\': a spelling with random map numbers on every atom
+    (written by RDKit, rooted at a stereocentre or in random order) must be read by chython as the stereoisomer that RDKit reads
+    from the very same string.  Atom numbers then differ from positions in the string (first-atom rule, neighbour order)."""
+    from chython import smiles
+    from rdkit import Chem
+    rng = random.Random(f'{ck.seed}:mapped')
+
+    def rd_canon(text):
+        rd = Chem.MolFromSmiles(text)
+        if rd is None:
+            return None
+        for a in rd.GetAtoms():
+            a.SetAtomMapNum(0)
+        return Chem.MolToSmiles(rd)
+    fam = ['C[C@H](F)Cl', 'C[C@@H](O)N', '[C@H](F)(Cl)Br', '[C@@H](C)(O)N', 'O.[C@H](F)(Cl)Br', 'C1O[C@H]1C', 'C[C@](F)(Cl)Br', 'N[C@@H](C)C(=O)O',
+           'C[C@@H]1CC[C@H](C)CC1', 'CC(F)=[C@]=C(Cl)Br', 'FC=[C@@]=CCl', 'F/C=C/Cl', 'F/C=C\\Cl', 'C[C@H](N)/C=C/[C@@H](O)C', 'F[C@]([H])(Cl)Br',
+           'OC[C@H]1O[C@@H](O)[C@H](O)[C@@H](O)[C@@H]1O', 'C[C@]12CC[C@H](C1)C2(C)C', 'F/C=C/C=C\\C=C/Cl']
+    for smi in fam + list(pool):
+        exp = rd_canon(smi)
+        try:
+            ref = smiles(smi)
+        except Exception:
+            continue
+        if exp is None or ref is None or rd_canon(str(ref)) != exp:
+            continue        # the unmapped spelling is already read differently by the two toolkits: judged by the respelling oracle
+        for sp in mapped_spellings(smi, rng, 4 if smi in fam else 2):
+            try:
+                m = smiles(sp)
+            except Exception:
+                continue
+            got = rd_canon(str(m))
+            ck.case(('mapped', sp))
+            ck.count('mapped search: spellings' + (' starting with a stereo atom' if re.match(r'\[[A-Za-z]+@', sp) else ''))
+            if got is not None and got != exp:
+                ck.counterexample(f'mapped-spelling:{smi}', 'a SMILES with atom-map numbers is read as another stereoisomer than the same string means for RDKit '
+                                  '(atom numbers differ from positions in the string)', {'smiles': smi, 'mapped': sp}, f'{m} (RDKit: {got})', exp,
+                                  'RDKit canonical isomeric SMILES of the mapped string (maps removed)',
+                                  replay_py=f"from chython import smiles; print(smiles({sp!r}), smiles({smi!r}))")
+                break
+
+
+def rdkit_symmetric_end_bonds(m):
+    """labelled plain double bonds of a chython molecule one end of which carries two substituents in one RDKit symmetry class
+    (CanonicalRankAtoms without tie breaking, computed on the constitution: no stereo passed) or two hydrogens: such a bond has
+    no E/Z isomers unless the two substituents differ ONLY in their own stereo labels"""
+    from rdkit import Chem
+    idx = {n: i for i, n in enumerate(m._atoms)}
+    rw = Chem.RWMol()
+    for n, a in m._atoms.items():
+        ra = Chem.Atom(a.atomic_number)
+        ra.SetFormalCharge(a.charge)
+        ra.SetNoImplicit(True)
+        ra.SetNumExplicitHs(a.implicit_hydrogens or 0)
+        if a.isotope:
+            ra.SetIsotope(a.isotope)
+        rw.AddAtom(ra)
+    for n, k, bd in m.bonds():
+        if int(bd) not in (1, 2, 3):
+            return []
+        rw.AddBond(idx[n], idx[k], {1: Chem.BondType.SINGLE, 2: Chem.BondType.DOUBLE, 3: Chem.BondType.TRIPLE}[int(bd)])
+    rd = rw.GetMol()
+    try:
+        Chem.SanitizeMol(rd)
+    except Exception:
+        return []
+    ranks = list(Chem.CanonicalRankAtoms(rd, breakTies=False, includeChirality=False))
+    out = []
+    for n, k, bd in m.bonds():
+        if bd.stereo is None or int(bd) != 2:
+            continue
+        for e, o in ((n, k), (k, n)):
+            subs = [x for x in m._bonds[e] if x != o]
+            if any(int(m._bonds[e][x]) != 1 for x in subs):
+                break       # cumulene / special bond: not judged here
+            if (len(subs) == 2 and ranks[idx[subs[0]]] == ranks[idx[subs[1]]]) or (len(subs) == 1 and (m._atoms[e].implicit_hydrogens or 0) >= 2):
+                out.append((n, k, e))
+                break
+    return out
+
+
+def n_labels(m):
+    return sum(1 for _, a in m.atoms() if a.stereo is not None), sum(1 for *_, bd in m.bonds() if bd.stereo is not None)
+
+
+def search_histories(ck, pool):
+    """labels are kept only on stereogenic centres AFTER AN EDIT: a labelled molecule is changed through the public API
+    (delete_atom, delete + add_atom + add_bond = substitution, growth at a leaf atom; each calls fix_stereo) and then
+    (1) the molecule read back from its own SMILES (built from scratch) carries as many atom / bond labels, (2) no labelled double
+    bond has an end with two substituents in one RDKit symmetry class (judged when at most one other label exists, so the
+    substituents cannot differ in their own stereo)"""
+    from chython import smiles
+    rng = random.Random(f'{ck.seed}:histories')
+    fam = ['C/C=C(/C)CC', 'C/C=C(\\C)CC', 'F/C=C(/Cl)Br', 'C/C=C=C=C(/C)CC', 'C/C=C/C=C(/C)CC', 'C/C=C(/C)CCC', 'C/C=C/C', 'C[C@H](F)CC', 'C[C@](F)(Cl)CC',
+           'CC(F)=[C@]=C(C)CC', 'C[C@H](O)/C=C(/C)CC', 'CC[C@H](C)/C=C/[C@@H](C)CC', 'C/C=C(/CC)C(C)C', 'C/C(CC)=C(/C)CC', 'F/C(Cl)=C(/F)Br',
+           'OC(=O)/C=C(/C)CC', 'C[C@H](CC)C(=O)O', 'C[C@@](CC)(CCC)O', 'C/C=C(/C)C(C)=O', 'CC[C@H](O)[C@@H](F)[C@H](O)C', 'C/C=C1/CC[C@H](CC)CC1']
+    for smi in fam + list(pool):
+        try:
+            m = smiles(smi)
+        except Exception:
+            continue
+        leaves = [n for n in m._atoms if len(m._bonds[n]) == 1 and m._atoms[n].atomic_number != 1]
+        if not leaves or n_labels(m) == (0, 0):
+            continue
+        for _ in range(8 if smi in fam else 3):
+            c = m.copy()
+            n = rng.choice(leaves)
+            nb = next(iter(c._bonds[n]))
+            kind = rng.choice(['delete', 'substitute', 'grow'])
+            try:
+                if kind == 'delete':
+                    c.delete_atom(n)
+                    call = f'm.delete_atom({n})'
+                elif kind == 'substitute':
+                    o = int(c._bonds[n][nb])
+                    el = rng.choice(['C', 'Cl', 'F', 'O', 'N']) if o == 1 else 'C'
+                    c.delete_atom(n)
+                    x = c.add_atom(el)
+                    c.add_bond(nb, x, o)
+                    call = f'm.delete_atom({n}); m.add_bond({nb}, m.add_atom({el!r}), {o})'
+                else:
+                    el = rng.choice(['C', 'F'])
+                    x = c.add_atom(el)
+                    c.add_bond(n, x, 1)
+                    call = f'm.add_bond({n}, m.add_atom({el!r}), 1)'
+            except Exception:
+                continue
+            c.flush_cache()
+            try:
+                text = str(c)
+                back = smiles(text)
+            except Exception:
+                continue
+            la, lb = n_labels(c)
+            ck.case(('history', smi, kind, n), nontrivial=(la, lb) != n_labels(m))
+            ck.count(f'history search: {kind}' + (' (a label is dropped)' if (la, lb) != n_labels(m) else ''))
+            replay = f"from chython import smiles; m=smiles({smi!r}); {call}; m.flush_cache(); print(m, [(n,k,b.stereo) for n,k,b in m.bonds() if b.stereo is not None])"
+            sym = rdkit_symmetric_end_bonds(c) if la + lb <= 2 else []
+            if sym:
+                ck.counterexample(f'history-label-on-symmetric-end:{smi}:{kind}:{n}', 'after an edit an E/Z label is kept on a double bond one end of which carries two '
+                                  'identical substituents (RDKit symmetry classes)', {'smiles': smi, 'edit': call}, f'{text}: labelled bonds {sym}', 'label dropped',
+                                  'RDKit CanonicalRankAtoms on the edited constitution', replay_py=replay)
+            elif back is not None and n_labels(back) != (la, lb):
+                ck.counterexample(f'history-labels:{smi}:{kind}:{n}', 'an edited molecule carries other stereo labels than the same molecule built from scratch '
+                                  '(read back from its own SMILES)', {'smiles': smi, 'edit': call}, f'{text}: {la} atom / {lb} bond labels',
+                                  f'{back}: {n_labels(back)[0]} atom / {n_labels(back)[1]} bond labels', 'molecule rebuilt from scratch', replay_py=replay)
+
 
 
 def search_closure_double_bond(ck):
